@@ -522,7 +522,7 @@ c.param("new_version", KStr())
 c.param("commit_message", KStr())
 c.param("tag_message", KStr())
 c.loop(0, LoopSpec(carried={}, invariant=_add_loop_inv, name="C10+C12.vcs.commit.stages_exactly_the_configured_paths", props=("C10", "C12", "C08")))
-c.ensures("C10.vcs.commit.steps_only_if_enabled_in_documented_order_all_performed", _steps_clause(False))
+c.ensures("C10+C08.vcs.commit.steps_only_if_enabled_in_documented_order_all_performed", _steps_clause(False))
 for _E in (sp.CalledProcessError, OSError, SystemExit, AssertionError):
     c.exsures(_E, f"C10.vcs.commit.stops_at_first_failure_{_E.__name__}", _steps_clause(True))
 
